@@ -30,33 +30,24 @@ pub open spec fn dec_size(b0: u8, rest: Seq<u8>) -> nat {
     be_val(seq![b0 & (0xffu8 >> (prefix_len_of(b0) as u8))] + rest)
 }
 
-/// vstd's u8::leading_ones specification agrees with prefix_len_of (bit-vector case analysis)
-pub proof fn lemma_leading_ones(b: u8)
+/// a byte above 0x7f has at least one leading one bit
+pub proof fn lemma_prefix_len_pos(b: u8)
     ensures
-        vstd::std_specs::bits::u8_leading_ones(b) == prefix_len_of(b),
+        b >= 0x80 <==> prefix_len_of(b) >= 1,
+        prefix_len_of(b) <= 8,
 {
-    vstd::std_specs::bits::axiom_u8_leading_ones(b);
-    vstd::std_specs::bits::axiom_u8_leading_zeros(!b);
-    let x = !b;
-    let z = vstd::std_specs::bits::u8_leading_zeros(x);
-    if z == 8 {
-        assert(!b == 0 ==> b == 0xff) by (bit_vector);
-        assert(0xffu8 & 0x80 != 0 && 0xffu8 & 0x40 != 0 && 0xffu8 & 0x20 != 0 && 0xffu8 & 0x10 != 0 && 0xffu8 & 0x08 != 0 && 0xffu8 & 0x04 != 0 && 0xffu8 & 0x02 != 0 && 0xffu8 & 0x01 != 0) by (bit_vector);
-    } else if z == 0 {
-        assert(((!b) >> 7u8) & 1u8 == 1u8 ==> b & 0x80 == 0) by (bit_vector);
-    } else if z == 1 {
-        assert(((!b) >> 7u8) == 0u8 && ((!b) >> 6u8) & 1u8 == 1u8 ==> b & 0x80 != 0 && b & 0x40 == 0) by (bit_vector);
-    } else if z == 2 {
-        assert(((!b) >> 6u8) == 0u8 && ((!b) >> 5u8) & 1u8 == 1u8 ==> b & 0x80 != 0 && b & 0x40 != 0 && b & 0x20 == 0) by (bit_vector);
-    } else if z == 3 {
-        assert(((!b) >> 5u8) == 0u8 && ((!b) >> 4u8) & 1u8 == 1u8 ==> b & 0x80 != 0 && b & 0x40 != 0 && b & 0x20 != 0 && b & 0x10 == 0) by (bit_vector);
-    } else if z == 4 {
-        assert(((!b) >> 4u8) == 0u8 && ((!b) >> 3u8) & 1u8 == 1u8 ==> b & 0x80 != 0 && b & 0x40 != 0 && b & 0x20 != 0 && b & 0x10 != 0 && b & 0x8 == 0) by (bit_vector);
-    } else if z == 5 {
-        assert(((!b) >> 3u8) == 0u8 && ((!b) >> 2u8) & 1u8 == 1u8 ==> b & 0x80 != 0 && b & 0x40 != 0 && b & 0x20 != 0 && b & 0x10 != 0 && b & 0x8 != 0 && b & 0x4 == 0) by (bit_vector);
-    } else if z == 6 {
-        assert(((!b) >> 2u8) == 0u8 && ((!b) >> 1u8) & 1u8 == 1u8 ==> b & 0x80 != 0 && b & 0x40 != 0 && b & 0x20 != 0 && b & 0x10 != 0 && b & 0x8 != 0 && b & 0x4 != 0 && b & 0x2 == 0) by (bit_vector);
-    } else if z == 7 {
-        assert(((!b) >> 1u8) == 0u8 && ((!b) >> 0u8) & 1u8 == 1u8 ==> b & 0x80 != 0 && b & 0x40 != 0 && b & 0x20 != 0 && b & 0x10 != 0 && b & 0x8 != 0 && b & 0x4 != 0 && b & 0x2 != 0 && b & 0x1 == 0) by (bit_vector);
-    }
+    assert(b >= 0x80 <==> b & 0x80 != 0) by (bit_vector);
+}
+
+/// 0x80 is the one-byte prefix announcing an empty atom
+pub proof fn lemma_dec_size_nil()
+    ensures
+        prefix_len_of(0x80) == 1,
+        dec_size(0x80, Seq::<u8>::empty()) == 0,
+{
+    assert(0x80u8 & 0x80 != 0 && 0x80u8 & 0x40 == 0) by (bit_vector);
+    assert(0x80u8 & (0xffu8 >> 1u8) == 0) by (bit_vector);
+    let s = seq![0x80u8 & (0xffu8 >> (1nat as u8))] + Seq::<u8>::empty();
+    assert(s =~= seq![0u8]);
+    lemma_be_val_1(s);
 }
